@@ -2,7 +2,7 @@
 (A) TLC: Semaphore.tla, all interleavings of 3 threads x <=2/3 calls (all wait kinds), + spec mutants.
 (B) trace validation: recorded executions of the real dispatch_semaphore vs SemaphoreTrace.tla.
 (V1) API oracles in the driver (conservation, no spurious success, timeouts not early)."""
-import os, json
+import os, json, re
 from vlib import *
 
 PROP = "C08"
@@ -62,6 +62,8 @@ def traces(v, tier, seed):
                       "no spec action explains record %d" % k
                 v.violation("trace rejected: %s; last records: %s" % (why, " | ".join(ctx)), p)
                 continue
+        if "MO_DRIFT" in r.out and not any("memory_order" in d for d in v.drift):
+            v.drift.append("memory_order argument differs from the transcription (informational on TSO): " + re.findall(r'<<"MO_DRIFT".*>>', r.out)[0])
         v.traces += 1
         v.states += r.distinct
         v.transitions += r.generated
